@@ -604,4 +604,102 @@ theorem createSymbols_rel (j1 j2 : Int) (P : X.Program) :
       simp only [bind, Except.bind]
       exact createProcs_rel j1 j2 P.procs P.procs 0 u1 u2 (fun _ h => h) hg.1 hg.2
 
+/-! ### `ConstProp` reads `scope`, `isValDecl`, `node` only -/
+
+section
+variable {D : SymKey → Prop} {t1 t2 : SymTab} (hT : TRel D t1 t2)
+include hT
+
+theorem lookup_rel_cases (scope n : String) :
+    (∃ a b, t1.lookup scope n = .ok a ∧ t2.lookup scope n = .ok b ∧ SEq a b) ∨
+    (∃ e, t1.lookup scope n = .error e ∧ t2.lookup scope n = .error e) := by
+  rcases hT.lookup scope n with ⟨k, a, b, _, h1, h2, h3, h4⟩ | ⟨_, h1, h2⟩
+  · exact Or.inl ⟨a, b, h1, h2, (hT.rel k a b h3 h4).1⟩
+  · exact Or.inr ⟨_, h1, h2⟩
+
+theorem lookupVal_rel (st : CPState) (scope name : String) : lookupVal t1 st scope name = lookupVal t2 st scope name := by
+  unfold lookupVal
+  rcases lookup_rel_cases hT scope name with ⟨a, b, h1, h2, hs⟩ | ⟨e, h1, h2⟩
+  · rw [h1, h2]
+    simp only [bind, Except.bind]
+    obtain ⟨e1, e2, e3, e4, e5, e6, e7⟩ := hs
+    by_cases hc : a.scope ≠ "" ∧ ¬ st.declared.contains name = true
+    · rw [if_pos hc, if_pos (by rw [← e4]; exact hc)]
+      rcases lookup_rel_cases hT "" name with ⟨a', b', h1', h2', hs'⟩ | ⟨e, h1', h2'⟩
+      · rw [h1', h2']
+        simp only
+        rw [hs'.2.2.1, hs'.2.1]
+      · rw [h1', h2']
+    · rw [if_neg hc, if_neg (by rw [← e4]; exact hc)]
+      simp only [pure, Except.pure]
+      rw [e3, e2]
+  · rw [h1, h2]
+    rfl
+
+theorem cpCall_rel (st : CPState) (scope : String) (sys : Int) (f : String) :
+    cpCall t1 st scope sys f = cpCall t2 st scope sys f := by
+  unfold cpCall
+  rw [lookupVal_rel hT]
+
+mutual
+theorem cpExpr_rel (st : CPState) (scope : String) : (e : X.Expr) → cpExpr t1 st scope e = cpExpr t2 st scope e
+  | .num v => by unfold cpExpr; rfl
+  | .bool b => by unfold cpExpr; rfl
+  | .str bs => by unfold cpExpr; rfl
+  | .name n => by unfold cpExpr; rw [lookupVal_rel hT]
+  | .sub n i => by unfold cpExpr; rw [cpExpr_rel st scope i]
+  | .call f args => by unfold cpExpr; rw [cpArgs_rel st scope args, cpCall_rel hT]
+  | .syscall id args => by unfold cpExpr; rw [cpArgs_rel st scope args, cpCall_rel hT]
+  | .un op e => by unfold cpExpr; rw [cpExpr_rel st scope e]
+  | .bin op l r => by unfold cpExpr; rw [cpExpr_rel st scope l, cpExpr_rel st scope r]
+theorem cpArgs_rel (st : CPState) (scope : String) : (es : List X.Expr) → cpArgs t1 st scope es = cpArgs t2 st scope es
+  | [] => by unfold cpArgs; rfl
+  | e :: es => by unfold cpArgs; rw [cpExpr_rel st scope e, cpArgs_rel st scope es]
+end
+
+mutual
+theorem cpStmt_rel (st : CPState) (scope : String) : (s : X.Stmt) → cpStmt t1 st scope s = cpStmt t2 st scope s
+  | .skip => by unfold cpStmt; rfl
+  | .stop => by unfold cpStmt; rfl
+  | .ret e => by unfold cpStmt; rw [cpExpr_rel hT]
+  | .ite c t e => by unfold cpStmt; rw [cpExpr_rel hT, cpStmt_rel st scope t, cpStmt_rel st scope e]
+  | .while c b => by unfold cpStmt; rw [cpExpr_rel hT, cpStmt_rel st scope b]
+  | .seq ss => by unfold cpStmt; rw [cpStmts_rel st scope ss]
+  | .assign n e => by unfold cpStmt; rw [lookupVal_rel hT, cpExpr_rel hT]
+  | .assignSub n i e => by unfold cpStmt; rw [cpExpr_rel hT st scope i, cpExpr_rel hT st scope e]
+  | .call f args => by unfold cpStmt; rw [cpArgs_rel hT, cpCall_rel hT]
+  | .syscall id args => by unfold cpStmt; rw [cpArgs_rel hT, cpCall_rel hT]
+theorem cpStmts_rel (st : CPState) (scope : String) : (ss : List X.Stmt) → cpStmts t1 st scope ss = cpStmts t2 st scope ss
+  | [] => by unfold cpStmts; rfl
+  | s :: ss => by unfold cpStmts; rw [cpStmt_rel st scope s, cpStmts_rel st scope ss]
+end
+
+theorem cpDecls_rel (scope : String) (mk : Nat → NodeRef) : ∀ (ds : List X.Decl) (i : Nat) (st : CPState),
+    cpDecls t1 scope mk ds i st = cpDecls t2 scope mk ds i st := by
+  intro ds
+  induction ds with
+  | nil => intro i st; unfold cpDecls; rfl
+  | cons d ds ih =>
+    intro i st
+    unfold cpDecls
+    cases d with
+    | val n e => simp only [cpExpr_rel hT, ih]
+    | var n => simp only [ih]
+    | array n e => simp only [cpExpr_rel hT, ih]
+
+theorem cpProcs_rel : ∀ (ps : List X.Proc) (i : Nat) (st : CPState), cpProcs t1 ps i st = cpProcs t2 ps i st := by
+  intro ps
+  induction ps with
+  | nil => intro i st; unfold cpProcs; rfl
+  | cons p ps ih =>
+    intro i st
+    unfold cpProcs
+    simp only [cpDecls_rel hT, cpStmt_rel hT, ih]
+
+theorem constProp_rel (P : X.Program) : constProp t1 P = constProp t2 P := by
+  unfold constProp
+  simp only [cpDecls_rel hT, cpProcs_rel hT]
+
+end
+
 end Hex.Xcmp
